@@ -69,6 +69,12 @@ theorem head_sym (hc : TableConsistent T L) (uni : Bool) : ∀ t : Skel, t.WF T 
     rw [← h.1, binder_idx hc uni hw.1]
     exact Or.inl rfl
   | ite c a b _ _ _ => intro _ s r h; simp [printSkel] at h
+  | ann t ty _ => intro _ s r h; simp [printSkel] at h
+  | binderT b x ty body _ =>
+    intro hw s r h
+    simp only [printSkel, List.cons.injEq, Tok.sym.injEq] at h
+    rw [← h.1, binder_idx hc uni hw.1]
+    exact Or.inl rfl
 
 theorem hypsMore_len (uni : Bool) (hs : List Skel) : hs.length ≤ (printHypsMore T L Q uni hs).length := by
   induction hs with
